@@ -571,7 +571,7 @@ def summarize(prop, tier, results, wall, findings, mutations, quiet=False):
     for r in results:
         if r.get("standin") is not None or "standin" in r:
             continue
-        if not r["error"] and not any(v["kind"] == "no-escape" and v["status"] == "discharged" for v in r["vcs"]) and not any(v["status"] == "refuted" for v in r["vcs"]):
+        if not r["error"] and not any(v["kind"] in ("no-escape", "loop-iteration-post") and v["status"] == "discharged" for v in r["vcs"]) and not any(v["status"] == "refuted" for v in r["vcs"]):
             if code == 0:
                 code = 3
             lines.append(f"ERROR vacuous lemma instance {r['lemma']}[{r['instance']}]: no path reaches the end")
